@@ -120,6 +120,30 @@ def main(tier, seed):
         for f in sorted(glob.glob(os.path.join(REPO, 'tests', 'scanner', '*-expected.gir'))):
             docs.append(('shipped ' + os.path.basename(f), open(f, encoding='utf-8').read()))
         for what, xml in docs:
+            # names survive the cycle only if they mean the same afterwards: a qualified type name must lead to this namespace
+            # or to one the document includes (what the reader resolves it against)
+            try:
+                root = ET.fromstring(xml)
+                own = root.find(S.CORE + 'namespace').get('name')
+                incs = {own}
+                todo = [(i.get('name'), i.get('version')) for i in root.findall(S.CORE + 'include')]
+                while todo:         # includes are transitive: follow them through the stub GIRs
+                    n_, v_ = todo.pop()
+                    if n_ in incs:
+                        continue
+                    incs.add(n_)
+                    f_ = os.path.join(ROOT, 'harness', 'stubgir', '%s-%s.gir' % (n_, v_))
+                    if os.path.exists(f_):
+                        todo += [(i.get('name'), i.get('version')) for i in ET.parse(f_).getroot().findall(S.CORE + 'include')]
+                bad = sorted(set(t.get('name') for t in root.iter() if t.tag in (S.CORE + 'type', S.CORE + 'array') and t.get('name')
+                                 and '.' in t.get('name') and t.get('name').split('.')[0] not in incs
+                                 and t.get('name').split('.')[0] not in ('GLib', 'GObject', 'Gio')))
+                if bad:
+                    ck.failing_input('a type name in the written GIR names a namespace the document neither is nor includes, so the '
+                                     'reader gives it another meaning than the model that was written', dict(document=what, gir=xml[:100000]),
+                                     detail=bad[:5])
+            except ET.ParseError:
+                pass
             p = os.path.join(tmp, 'doc.gir')
             cur = xml
             ck.count_case(dict(document=what, bytes=len(xml)), nontrivial=len(xml) > 2000, kind=what.split('#')[0].split(' ')[0])
